@@ -59,6 +59,20 @@ Definition helper_model (c : list tclass * list nat * list (str * value) * cfgda
     eqb = 'value_eqb'
     model = 'helper_model'
 
+    def corpus(self):
+        from ..suites_chain import K, P
+        # the tested task lives in a group and one of its mocked inputs has the same plain name without a group
+        up = dict(K(0, 'Records', params=[P('x')]), name='records')
+        down = dict(K(1, 'CleanRecords', group='clean', meta_inputs=[{'cls': 0}], params=[P('y', default=[2])]), name='records')
+        deep = dict(K(2, 'DeepRecords', group='a:b', meta_inputs=[{'cls': 1}, {'cls': 0}]), name='records')
+        out = []
+        for by_class in (True, False):
+            for single in (True, False):
+                out.append(dict(classes=[up, down], vals={'x': 1}, real=[1], by_class=by_class, drop_mock=False, single=single))
+                out.append(dict(classes=[up, down, deep], vals={'x': 1, 'y': 3}, real=[2], by_class=by_class, drop_mock=False,
+                                single=single))
+        return out
+
     def gen(self, rng, tier):
         return [gen_flat_case(rng) for _ in range(80 if tier == 'quick' else 2000)]
 
@@ -126,7 +140,8 @@ Definition helper_model (c : list tclass * list nat * list (str * value) * cfgda
                                 after.append([n, ['ok', t.value]])
                             except Exception as e:
                                 after.append([n, ['error', f'{type(e).__name__}: {e}'[:100]]])
-                        return dict(values=values, after_force=after)
+                        return dict(values=values, after_force=after,
+                                    kinds=[[n, type(t).__name__, t.slugname] for n, t in tasks.items()])
                     except CONSTRUCTION_ERRORS as e:
                         return dict(error=type(e).__name__, text=str(e)[:150])
                 made = []
@@ -181,6 +196,14 @@ Definition helper_model (c : list tclass * list nat * list (str * value) * cfgda
                 return f'a mocked task was persisted: {f}'
         if obs.get('real_error') or 'values' not in obs or case['drop_mock']:
             return None
+        asked = sorted(pl.slug_of(c) for c in case['classes'] if c['id'] in case['real'])
+        for tag, part in (('', obs), (' (used again)', obs.get('again', {}))):
+            if 'kinds' in part:
+                got = sorted(sl for _, kind, sl in part['kinds'] if kind != 'MockTask')
+                mocked = [n for n, kind, _ in part['kinds'] if kind == 'MockTask']
+                if mocked or got != asked:
+                    return (f'the helper{tag} was asked for the tasks {asked}; it yields {got}'
+                            + (f' and hands out the mock(s) {mocked} as tested task' if mocked else ''))
         for n, r in obs.get('raw_values') or []:
             real = obs.get('real_raw', {}).get(n)
             if r[0] == 'ok' and isinstance(r[1], dict) and isinstance(real, dict) and r[1].get('h') != real.get('h'):
